@@ -85,7 +85,7 @@ fn merge_worker(m: &mut Merged, v: &Value, hashes: &Path) {
     }
     if let Some(a) = v.get("samples").and_then(|x| x.as_array()) {
         for s in a {
-            if m.samples.len() < 12 {
+            if m.samples.len() < 12 && !m.samples.contains(s) {
                 m.samples.push(s.clone());
             }
         }
